@@ -738,7 +738,7 @@ class Einsum(EvalableModel):
         self.renames = RenameList(self.renames)
 
         # Grab the default renames and update the renames with more values
-        default_renames = renames.get_renames_for_einsum("default")
+        default_renames = renames.get_renames_for_einsum(self.name)
         for tensor_rename in default_renames.tensor_accesses:
             if tensor_rename.name not in self.renames:
                 self.renames.append(tensor_rename)
